@@ -51,7 +51,7 @@ fn kind(rs: &cyw::RS) -> &'static str {
 
 pub fn run(ctx: &mut RunCtx) {
     ctx.assume("decided at the C ABI (ndb_begin_write / ndb_txn_query / ndb_txn_commit), which the Python and Node bindings wrap");
-    let cases = ctx.tier.pick(50_000, 3_000_000);
+    let cases = ctx.tier.pick(200_000, 3_000_000);
     let test = |c: &Case, obs: &mut Obs| {
         let mut w = World::new()?;
         let none = BTreeSet::new();
